@@ -265,7 +265,7 @@ pub fn run(ctx: &mut Ctx) {
     if !t.uncovered.is_empty() {
         ctx.inconclusive.push(format!("instruction variants unknown to the reference semantics: {:?}", t.uncovered));
     }
-    let (n, depth, steps) = ctx.tier.pick((30_000u32, 200u32, 20_000usize), (600_000, 3_000, 20_000));
+    let (n, depth, steps) = ctx.tier.pick((30_000u32, 200u32, 20_000usize), (200_000, 2_000, 20_000));
     ctx.rule = format!("programs assembled from looping (exec duplication), self-pushing, nesting (depth up to {depth}), integer/float blow-up and Power templates plus exec-heavy random pieces; stack limits 0..8 with step limits up to {steps}, or large limits with small step limits; all inputs bound. Oracle: lock-step reference model + run_to_completion under sampled step limits + invariants (no panic, sizes within maxima, Err only as overflow). non-trivial = reached the step limit with exec non-empty, or ended in overflow, or nesting depth >= 10, or an overflow under a limit of 0/1; distinct by JSON encoding of the template case");
     ctx.assumptions.push("native-stack exhaustion for nests deeper than the stated bound is out of scope; a hang is reported by the watchdog as inconclusive (exit 2)".into());
     ctx.run_prop("growth_programs", n, move || case_strategy(&Tables::build(), depth, steps), |c, p| {
